@@ -79,7 +79,7 @@ def classify_escape(point, src, exc):
         return "F03c3"
     if name == "AttributeError" and where == "is_adjacent" and "?" in src and "'tuple' object has no attribute" in str(exc):
         return "F03e"
-    if isinstance(exc, RecursionError) and max(gen_py.nesting_depth(src), _crude_depth(src)) >= 15:
+    if isinstance(exc, RecursionError) and max(gen_py.nesting_depth(src), _crude_depth(src)) >= 22:
         return "F01g"
     return None
 
